@@ -36,6 +36,9 @@
 (*        PrevFilterHeader                                                 *)
 (*   "OM" consistent false checkpoints + cfheaders (false filter hash at   *)
 (*        k); serves a filter for k that OMITS an output script            *)
+(*   "OU" the same; the omitted output script is one that does not parse   *)
+(*        (BIP158 filters contain those; only OP_RETURN outputs are left   *)
+(*        out)                                                             *)
 (*   "NH" same, but the filter it serves does NOT HASH to the advertised   *)
 (*        value (it serves the true filter)                                *)
 (*   "NS" same, but the filter for k is NOT SERVED                         *)
@@ -58,9 +61,9 @@ OrBit(m, p) == IF Bit(m, p) THEN m ELSE m + Pow2(p - 1)
 BlockOf(x) == x \div LS
 MaskOf(x)  == x % LS
 
-KindCF   == {"OM", "NH", "NS", "EX", "HC"}            \* false filter hash at k in cfheaders
-KindCP   == {"CP", "CX", "PV", "OM", "NH", "NS", "EX"}  \* false checkpoints from k on
-Provable == {"OM", "NH", "NS", "HC"}   \* the statement's list: omits a script / does not hash / not served
+KindCF   == {"OM", "OU", "NH", "NS", "EX", "HC"}            \* false filter hash at k in cfheaders
+KindCP   == {"CP", "CX", "PV", "OM", "OU", "NH", "NS", "EX"}  \* false checkpoints from k on
+Provable == {"OM", "OU", "NH", "NS", "HC"}   \* the statement's list: omits a script / does not hash / not served
 
 InSeq(x, s) == \E i \in 1..Len(s) : s[i] = x
 IsPrefix(s, t) == Len(s) <= Len(t) /\ \A i \in 1..Len(s) : s[i] = t[i]
@@ -76,7 +79,28 @@ HonestPresent(o) == \E q \in PeersOf(o) : Kd(o, q) = "H" /\ o.ban[q] = 0
 \*   cpresp  peers whose checkpoint lists the handler holds (last getcfcheckpt)
 \*   cpsrv   of those, the ones whose list (capped at the handler's height) is false
 \*   hsrv    peers that served false cfheaders in the current call
-AbsInit == [cpresp |-> {}, cpsrv |-> {}, hsrv |-> {}]
+\*   ech, nev, ebad  (CFRace slice, C19) the chain a subscriber holds after the
+\*           first nev delivered block events, and whether an event did not fit
+AbsInit == [cpresp |-> {}, cpsrv |-> {}, hsrv |-> {}, ech |-> <<>>, nev |-> 0, ebad |-> 0]
+
+\* One delivered event applied to the chain the subscriber holds (block ids =
+\* heights in that slice).  Connected(b) = b+1 must extend the chain by one;
+\* Disconnected(b) = -(b+1) must remove its top, or concern a block above the
+\* top (a block whose filter header was never committed, hence never announced).
+EvApply(st, x) ==
+  LET c == st[1]
+      top == c[Len(c)]
+  IN  IF x > 0
+      THEN IF x - 1 = top + 1 THEN <<Append(c, x - 1), st[2]>> ELSE <<c, 1>>
+      ELSE LET b == (-x) - 1 IN
+           IF b > top THEN st
+           ELSE IF b = top /\ Len(c) > 1 THEN <<SubSeq(c, 1, Len(c) - 1), st[2]>>
+           ELSE <<c, 1>>
+
+RECURSIVE EvFold(_, _, _)
+EvFold(st, evs, i) == IF i > Len(evs) THEN st ELSE EvFold(EvApply(st, evs[i]), evs, i + 1)
+
+HasEv(o) == "ev" \in DOMAIN o
 
 ROps == {"RStart", "RCfh", "RFlt", "RBlk"}
 UOps == {"UStart", "UCfh", "UFlt", "UBlk"}
@@ -87,7 +111,11 @@ FalseCfh(o, p, lo, hi) ==
   \/ Kd(o, p) = "PV" /\ lo > 0
 
 AbsNext(a, act, o2) ==
-  CASE act.op = "GetCheckpts" ->
+  CASE HasEv(o2) ->
+         LET c0 == IF a.ech = <<>> THEN [x \in 1..(o2.rsc[2] + 1) |-> x - 1] ELSE a.ech
+             st == EvFold(<<c0, a.ebad>>, o2.ev, a.nev + 1)
+         IN  [a EXCEPT !.ech = st[1], !.nev = Len(o2.ev), !.ebad = st[2]]
+    [] act.op = "GetCheckpts" ->
          [a EXCEPT !.cpresp = {p \in PeersOf(o2) : InSeq(p, act.rs)}]
     [] act.op = "RStart" ->
          [a EXCEPT !.cpsrv = {p \in a.cpresp : Kd(o2, p) \in KindCP
@@ -110,6 +138,17 @@ Succ(o, x, y, h) ==
 
 NewBits(o, x, y) == {p \in PeersOf(o) : y >= 0 /\ x >= 0 /\ Bit(MaskOf(y), p) /\ ~Bit(MaskOf(x), p)}
 
+\* C19 "events are emitted in the order the chain changed" (CFRace slice): every
+\* delivered event fits the chain built from the events before it, and once
+\* both functions have returned that chain is the committed filter-header chain.
+EventViol(a, o, a2, o2) ==
+  IF ~HasEv(o2) THEN {}
+  ELSE IF (a2.ebad = 1 /\ a.ebad = 0)
+          \/ (o2.q = 1 /\ o.q = 0 /\ a2.ebad = 0
+              /\ (\A h \in 1..Len(o2.F) : o2.F[h] >= 0)
+              /\ a2.ech # [h \in 1..Len(o2.F) |-> BlockOf(o2.F[h])])
+       THEN {"EventsFollowChainOrder"} ELSE {}
+
 Viol(a, o, act, a2, o2) ==
   LET F  == o.F
       F2 == o2.F
@@ -121,6 +160,7 @@ Viol(a, o, act, a2, o2) ==
                 ELSE IF act.op \in UOps THEN a2.hsrv ELSE {}
       allProvable == \A p \in srv : Kd(o2, p) \in Provable
   IN
+  EventViol(a, o, a2, o2) \cup
   \* the filter chain never runs ahead of the block chain
   (IF m > Len(o2.B) THEN {"NotAhead"} ELSE {})
   \* each entry belongs to the block at the same height on the current chain
@@ -161,4 +201,5 @@ Viol(a, o, act, a2, o2) ==
         THEN {"LiarsBanned"} ELSE {})
 
 EndViol(a, o) == {}
+
 =============================================================================
